@@ -75,6 +75,8 @@ class ArgMap(Model):
             return None
         if name == "__bool__":
             raise Unsupported("truth value of an argument map", node)
+        if name in ("__eq__", "__ne__") and len(args) == 1 and (is_strlike(args[0]) or args[0] is None):
+            return name == "__ne__"          # a dict never equals a string or None
         raise Unsupported("dict.%s on an argument map" % name, node)
 
     def copy(self, memo=None):
@@ -187,6 +189,17 @@ class OrdMap(Model):
             self._freeze()
             v = self._view
             return SymSeq(v.n, lambda i: (z3.Select(v.key, i), StoredValue(v, i)), name="pending.items")
+        if name in ("get", "__getitem__") and 1 <= len(args) <= 2:
+            self._freeze()
+            k = _key(args[0], node)
+            found, j = self._index_of(ctx, k)
+            self.lookups.append(("get", k, found, j))
+            if interp.truth(found, node):
+                return StoredValue(self._view, j).resolve(interp)
+            if name == "__getitem__":
+                from .values import PyExc
+                raise PyExc("KeyError", ())
+            return args[1] if len(args) > 1 else None
         raise Unsupported("OrderedDict.%s" % name, node)
 
     def _index_of(self, ctx, k):
